@@ -35,6 +35,7 @@ import (
 )
 
 var workdir string
+var dump *bool
 
 // state is what was observed after one batch.
 type state struct {
@@ -73,6 +74,15 @@ func run(o c07.Opt, h [][]pipeline.Change, upto int) ([]state, error) {
 			}
 		}
 		out = append(out, st)
+		if *dump && i == len(h)-1 {
+			files, _ := filepath.Glob(filepath.Join(p.CfgDir(), "*.cfg"))
+			for _, f := range files {
+				b, _ := os.ReadFile(f)
+				fmt.Printf("==== %s\n%s\n", f, strings.ReplaceAll(string(b), p.Prefix(), ""))
+			}
+			b, _ := json.MarshalIndent(st.cfg, "", " ")
+			fmt.Printf("==== scanned\n%s\n", b)
+		}
 	}
 	return out, nil
 }
@@ -280,6 +290,7 @@ func writeCorpus() {
 
 func main() {
 	wc := flag.Bool("write-corpus", false, "write the built-in corpus to /verif/corpus/C07 and exit")
+	dump = flag.Bool("dump", false, "print the configuration files written after the last batch of each history")
 	o := hx.Parse()
 	if *wc {
 		writeCorpus()
@@ -320,8 +331,8 @@ func main() {
 				units = append(units, in)
 			}
 		}
-		nDed := o.Count(150, 6000)
-		nWorld := o.Count(50, 2000)
+		nDed := o.Count(200, 6000)
+		nWorld := o.Count(60, 2000)
 		if o.Search {
 			nDed, nWorld = o.Count(1500, 12000), o.Count(300, 3000)
 		}
